@@ -72,11 +72,19 @@ def _ctor_server(ex, st, self_v, args, kwargs, node):
 
 
 def _gsleep(ex, st, self_v, args, kwargs, node):
+    _wait_bound(st, args[0])
     t = z3.Real(fresh_name("now"))
     st.assume(t >= st.ghost["now"])
     st.ghost["now"] = t
     st.ghost["sleeps"] = st.ghost["sleeps"] + 1
     return R1(ex, st, NONE)
+
+
+def _wait_bound(st, arg):
+    """C11: a sleep between two heartbeats must not exceed the heartbeat period the arbiter gave the worker"""
+    hb = st.obj(st.ghost["worker_ref"]).fields["timeout"].t
+    a = z3.ToReal(arg.t) if isinstance(arg, SInt) else arg.t
+    st.ghost["wait_ok"] = And(st.ghost["wait_ok"], Or(hb == 0, a <= hb))
 
 
 def _gtime(ex, st, self_v, args, kwargs, node):
@@ -98,7 +106,7 @@ class GLsock(ClassModel):
         return None
 
 
-@contract("gunicorn.workers.ggevent:GeventWorker.run", props=("C04", "C10"))
+@contract("gunicorn.workers.ggevent:GeventWorker.run", props=("C04", "C10", "C11"))
 class GeventRun(Contract):
     """after the worker is told to stop it closes every server (stops accepting) and then leaves the drain loop ONLY when
     every server's pool was seen idle in that very round - or when the graceful timeout has passed, in which case every
@@ -123,7 +131,10 @@ class GeventRun(Contract):
                                 (MOD, "partial"): ClassV(functools.partial)}
         STUBS["gw_time.time"] = _gtime
         st.assume(z3.Int("self.worker_connections") >= 1)
-        st.ghost.update({"npools": 0, "now": z3.Real("now0"), "sleeps": iv(0), "notifies": iv(0)})
+        st.ghost.update({"npools": 0, "now": z3.Real("now0"), "sleeps": iv(0), "notifies": iv(0), "wait_ok": TRUE, "worker_ref": w})
+        hbp = z3.Real("self.timeout")
+        st.assume(hbp >= 0)
+        o.fields["timeout"] = SReal(hbp)
         return [("two-listeners", st, {"self": w}, {})]
 
     def raises(self, c):
@@ -137,12 +148,14 @@ class GeventRun(Contract):
         all_stopped = And(*[g["stopped_%d" % k] for k in range(n)])
         return [("one-pool-and-one-server-per-listener", TRUE if n == 2 else FALSE),
                 ("every-server-stops-accepting-first", all_closed),
+                ("sleeps-between-heartbeats-are-bounded-by-the-heartbeat-period", g["wait_ok"]),
                 ("leaves-only-when-EVERY-pool-was-seen-idle-or-after-the-graceful-timeout(then-all-servers-are-stopped)", Or(all_idle, all_stopped))]
 
     loops = {0: dict(anchor="for s in self.sockets", cands=[]),
-             1: dict(anchor="while self.alive", cands=[]),
+             1: dict(anchor="while self.alive", cands=[("wait_ok", lambda L: L.st.ghost["wait_ok"])]),
              2: dict(anchor="for server in servers", cands=[]),
              3: dict(anchor="while time.time() - ts <= self.cfg.graceful_timeout", cands=[
                  ("servers-stay-closed", lambda L: And(*[L.st.ghost["closed_%d" % k] for k in range(L.st.ghost["npools"])])),
+                 ("wait_ok", lambda L: L.st.ghost["wait_ok"]),
                  ("nobody-stopped-yet", lambda L: And(*[Not(L.st.ghost["stopped_%d" % k]) for k in range(L.st.ghost["npools"])])),
              ])}
